@@ -87,7 +87,24 @@ func kindType(k string) reflect.Type {
 	return t
 }
 
+// kindScale spreads the small naturals of the cases over every byte of a wider integer type (v ↦ v·scale, injective and
+// monotone for 0 ≤ v ≤ 90), so that an operation that moves or compares only some of a value's bytes is visible.
+func kindScale(k string) int {
+	switch k {
+	case "i16":
+		return 257
+	case "u16":
+		return 701
+	case "i32", "u32":
+		return 16843009
+	case "i64", "u64", "int", "uint", "uptr":
+		return 72340172838076673
+	}
+	return 1
+}
+
 func fromInt(k string, v int) reflect.Value {
+	v *= kindScale(k)
 	switch k {
 	case "i64":
 		return reflect.ValueOf(int64(v))
@@ -163,12 +180,24 @@ func fromInt(k string, v int) reflect.Value {
 	panic("unknown kind " + k)
 }
 
+// unscale inverts kindScale; a value that is not a multiple of the scale (a torn or truncated value) is shown as -(raw value)-1000
+func unscale(k string, x int) int {
+	s := kindScale(k)
+	if x%s != 0 {
+		if x > 0 {
+			return -x - 1000
+		}
+		return x - 1000
+	}
+	return x / s
+}
+
 func toInt(k string, v reflect.Value) int {
 	switch k {
 	case "i64", "i32", "i16", "i8", "int":
-		return int(v.Int())
+		return unscale(k, int(v.Int()))
 	case "u8", "u16", "u32", "u64", "uint", "uptr":
-		return int(v.Uint())
+		return unscale(k, int(v.Uint()))
 	case "str":
 		s := v.String()
 		if s == "" {
